@@ -480,7 +480,7 @@ def plan(lib, tier, seed, quick_n, lengths_quick=(1, 3), lengths_thorough=(1, 3)
     shards = []
     for i, k in enumerate(ks):
         if tier == 'quick':
-            todo = [(lengths_quick[(k + seed) % len(lengths_quick)], combos[(i + seed) % len(combos)])]
+            todo = [(lengths_quick[(k + seed) % len(lengths_quick)], combos[(k // 2 + seed) % len(combos)])]
         else:
             todo = [(L, c) for L in lengths_thorough for c in combos]
         for L, (rl, rg, hl) in todo:
